@@ -1,5 +1,6 @@
 (* Unimock.Props.C06 -- property theorems only. *)
 From Unimock Require Import Model.Base Macro.RustPat Macro.Matching Spec.RustMatch Proofs.C06.
+From Unimock Require Model.Run Proofs.Trace.
 
 (* (main) for EVERY analysed macro input (any number of alternatives, any
    patterns, any guard, any eq!/ne! operands), every argument tuple and either
@@ -86,3 +87,42 @@ Example C06_nonvacuous :
   accepts input true [VStr Owned "ab"; VInt 4; VSeq Newtype [VInt 3; VInt 7]] = true /\
   accepts input false [VStr Owned "b"; VInt 3; VSeq Newtype [VInt 7]] = false.
 Proof. vm_compute. repeat split. Qed.
+
+(* runtime half ("the accept/reject decision is the same whether or not mismatch diagnostics are collected", and a Rust match
+   does not evaluate the guards of later arms): which matchers the runtime consults for a call, and when it collects
+   diagnostics.  Unordered: the patterns up to and including the answering one, once each, without diagnostics; if all reject,
+   a strict mock re-runs them WITH diagnostics after the decision (for the message), a partial mock does not; an ordered call
+   consults the one pattern that owns its slot.  Tied to the real runtime by logging every matcher invocation (event callm) *)
+Module Runtime.
+Import Model.Run Proofs.Trace.
+Open Scope N_scope.
+Theorem C06_runtime_consults_like_a_match : forall cfg s m a mk i p,
+  lookup m (c_table cfg) = Some mk -> m_mode mk = InAnyOrder ->
+  scan N haccepts a (m_pats mk) 0 = Some (i, p, Some true) ->
+  matcher_trace cfg s m a = map (fun q => (pat_id q, false)) (firstn (S i) (m_pats mk)).
+Proof. exact trace_stops_at_the_answering_pattern. Qed.
+
+Theorem C06_diagnostics_only_after_the_decision : forall cfg s m a mk,
+  lookup m (c_table cfg) = Some mk -> m_mode mk = InAnyOrder ->
+  scan N haccepts a (m_pats mk) 0 = None ->
+  matcher_trace cfg s m a =
+  match c_fallback cfg with
+  | FbError => (map (fun q => (pat_id q, false)) (m_pats mk) ++ map (fun q => (pat_id q, true)) (m_pats mk))%list
+  | FbUnmock => map (fun q => (pat_id q, false)) (m_pats mk)
+  end.
+Proof. exact trace_when_all_reject. Qed.
+
+Theorem C06_ordered_call_consults_one_matcher : forall cfg s m a mk,
+  lookup m (c_table cfg) = Some mk -> m_mode mk = InOrder -> (length (matcher_trace cfg s m a) <= 1)%nat.
+Proof. exact ordered_call_consults_one_matcher. Qed.
+
+Example C06_trace_nonvacuous :
+  match assemble hinfo cfg_std FbError [TCall 0 EachCall (Pt (Some 2) (Some 1) [OReturns 1]);
+                                        TCall 0 EachCall (Pt (Some 6) (Some 2) [OReturns 2]);
+                                        TCall 0 EachCall (Pt (Some 255) (Some 3) [OReturns 3])] with
+  | Some (inl cfg) => matcher_trace cfg init_state 0 2 = [(1, false); (2, false)] /\
+                      matcher_trace cfg init_state 0 1 = [(1, false)]
+  | _ => False
+  end.
+Proof. vm_compute. split; reflexivity. Qed.
+End Runtime.
